@@ -22,7 +22,9 @@ import sys
 import tempfile
 
 VERIF = os.path.dirname(os.path.dirname(os.path.abspath(__file__)))
-SEEDED = os.path.join(VERIF, "seeded")
+# --benign: the changes under /verif/benign/ preserve their property; every check must stay silent (exit 0) on them
+BENIGN = "--benign" in sys.argv
+SEEDED = os.path.join(VERIF, "benign" if BENIGN else "seeded")
 
 
 def seeds(filter_ids):
@@ -81,6 +83,7 @@ def run_one(prop, name, tier, confirm):
                                 "failed_obligations": failed[:8], "summary": (lines[-1] if lines else "")[:300],
                                 "stderr_tail": r.stderr[-300:] if r.returncode not in (0, 1) else ""}
         res["detected"] = any(v["exit"] == 1 for v in res["checks"].values())
+        res["silent"] = all(v["exit"] == 0 for v in res["checks"].values())
         res["in_domain"] = meta.get("in_domain", True)
         if confirm:
             env = dict(os.environ, PYTHONPATH=os.path.join(scratch, "src"))
@@ -122,6 +125,12 @@ def main():
             r = f.result()
             results.append(r)
             c = r.get("checks", {})
+            if BENIGN:
+                print(f"{r['property']}/{r['name']}: " + (r.get("error") or ("SILENT (ok)" if r.get("silent") else
+                                                                             "FALSE ALARM" if r.get("detected") else "UNDECIDED/ERROR"))
+                      + " " + " ".join(f"{k}:exit={v['exit']},viol={v['violations']}" for k, v in c.items())
+                      + (f" tests_ok={r.get('tests_ok')}" if confirm else ""), flush=True)
+                continue
             print(f"{r['property']}/{r['name']}: " + (r.get("error") or ("DETECTED" if r.get("detected") else
                                                                              "MISSED" if r.get("in_domain", True) else "SILENT (out of the property's domain, see meta.json)"))
                   + " " + " ".join(f"{k}:exit={v['exit']},viol={v['violations']}" for k, v in c.items())
@@ -130,6 +139,8 @@ def main():
     results.sort(key=lambda r: (r["property"], r["name"]))
     if not ids:
         json.dump(results, open(os.path.join(SEEDED, "RESULTS.json"), "w", encoding="utf-8"), indent=1)
+    if BENIGN:
+        return 0 if all(r.get("silent") for r in results) else 1
     return 0 if all(r.get("detected") or not r.get("in_domain", True) for r in results) else 1
 
 
